@@ -295,7 +295,9 @@ func interleaved(frames []Frame) bool {
 	return false
 }
 
-func dribbledPreface(c Case) bool { return len(c.Pieces) > 0 && c.Pieces[0] > 0 && c.Pieces[0] < len(h2kit.Preface) }
+func dribbledPreface(c Case) bool {
+	return len(c.Pieces) > 0 && c.Pieces[0] > 0 && c.Pieces[0] < len(h2kit.Preface)
+}
 
 func classes(c Case) []string {
 	set := map[string]bool{}
@@ -540,11 +542,11 @@ type runner struct {
 	bound time.Duration
 	mu    sync.Mutex
 	v     kit.Verdict
-	slow  bool // a bounded wait expired
+	slow  bool                        // a bounded wait expired
 	sent  map[string]map[uint32][]int // direction -> stream -> wire frames of each header block sent, in order
-	base  int  // relay loops left behind by earlier cases of this process (stuck for good)
-	calib bool // both relay directions were seen running
-	dead  bool // a relay direction ended while frames were awaited
+	base  int                         // relay loops left behind by earlier cases of this process (stuck for good)
+	calib bool                        // both relay directions were seen running
+	dead  bool                        // a relay direction ended while frames were awaited
 }
 
 // wait is Endpoint.Wait with the case's bound, cut short when a relay
@@ -931,6 +933,7 @@ func attempt(c Case, vr variant) kit.Verdict {
 }
 
 func run(c Case) kit.Verdict {
+	h2kit.ShortShrink()
 	var vr variant
 	v := attempt(c, vr)
 	out := append(kit.Verdict(nil), v...)
